@@ -28,6 +28,7 @@ StepOK(e) ==
   /\ ChainOK(e)                                              \* its ancestors are stable with it, by height
   /\ st2 \in Anc(hd2)                                        \* the head is the stable block or a descendant
   /\ \A b \in kn2 : b \in Anc(st2) \/ st2 \in Anc(b)         \* nothing beside the stable chain survives
+  /\ \A b \in (kn2 \cap known) \ {G} : conf[b] \subseteq c2[b]  \* a stored confirm is never lost again
 \* nothing changed - except that a deputy node's own background goroutine (batchConfirmStable) may have added the
 \* node's own confirm to blocks that are already stable
 Same(e) == /\ KnownOf(e) = known /\ e.stable = stable /\ e.head = head
